@@ -17,6 +17,26 @@ class Unfoldable(Exception):
     pass
 
 
+class Sym(object):
+    """Opaque reference to a name that has no foldable value (a builtin, a function, a class ...); produced by
+    ``Repo.fold(..., sym=True)`` so that tables mixing constants and callables can still be folded structurally."""
+
+    def __init__(self, name):
+        self.name = name
+
+    def __eq__(self, other):
+        return isinstance(other, Sym) and other.name == self.name
+
+    def __ne__(self, other):
+        return not self == other
+
+    def __hash__(self):
+        return hash(('Sym', self.name))
+
+    def __repr__(self):
+        return '<%s>' % self.name
+
+
 class FuncInfo(object):
     def __init__(self, mod, node, qualname, cls=None):
         self.mod, self.node, self.qualname, self.cls = mod, node, qualname, cls
@@ -79,6 +99,7 @@ class ModuleInfo(object):
         self.classes = {}     # qualname -> ClassInfo
         self.imports = {}     # local name -> (module name, attr or None)
         self.assigns = {}     # module-level name -> list of value exprs
+        self.augassigns = {}  # module-level name -> {index into assigns[name]: AugAssign stmt} (straight-line top level only)
         self.parents = {}
         self._index()
 
@@ -104,7 +125,7 @@ class ModuleInfo(object):
             base = base + node.module.split('.')
         return '.'.join(base)
 
-    def _index_body(self, body, prefix, cls, toplevel=False):
+    def _index_body(self, body, prefix, cls, toplevel=False, nested=False):
         for st in body:
             if isinstance(st, (ast.FunctionDef, ast.AsyncFunctionDef)):
                 qn = prefix + st.name
@@ -126,22 +147,31 @@ class ModuleInfo(object):
                 self._index_import(st)
             elif isinstance(st, ast.Assign):
                 for t in st.targets:
+                    # "A, B = x, y": element-wise values (plain names on the left, same length, no star)
+                    pairs = {}
+                    if isinstance(t, (ast.Tuple, ast.List)) and isinstance(st.value, (ast.Tuple, ast.List)) and \
+                            len(t.elts) == len(st.value.elts) and \
+                            not any(isinstance(e, ast.Starred) for e in list(t.elts) + list(st.value.elts)):
+                        pairs = dict((e.id, v) for e, v in zip(t.elts, st.value.elts) if isinstance(e, ast.Name))
                     for n in _target_names(t):
                         if cls is not None:
                             cls.class_attrs[n] = st.value if isinstance(t, ast.Name) else None
                         elif toplevel:
-                            self.assigns.setdefault(n, []).append(st.value if isinstance(t, ast.Name) else None)
+                            self.assigns.setdefault(n, []).append(st.value if isinstance(t, ast.Name) else pairs.get(n))
             elif isinstance(st, ast.AnnAssign) and isinstance(st.target, ast.Name):
                 if cls is not None:
                     cls.class_attrs[st.target.id] = st.value
                 elif toplevel:
                     self.assigns.setdefault(st.target.id, []).append(st.value)
             elif isinstance(st, ast.AugAssign) and isinstance(st.target, ast.Name) and toplevel:
-                self.assigns.setdefault(st.target.id, []).append(None)
+                lst = self.assigns.setdefault(st.target.id, [])
+                lst.append(None)
+                if not nested and cls is None:
+                    self.augassigns.setdefault(st.target.id, {})[len(lst) - 1] = st
             elif isinstance(st, (ast.If, ast.Try, ast.With, ast.For, ast.While)):
                 # module/class level conditional definitions (py2/py3 shims etc.)
                 for sub in _sub_bodies(st):
-                    self._index_body(sub, prefix, cls, toplevel=toplevel)
+                    self._index_body(sub, prefix, cls, toplevel=toplevel, nested=True)
                 if isinstance(st, ast.For) and toplevel:
                     for n in _target_names(st.target):
                         self.assigns.setdefault(n, []).append(None)
@@ -202,6 +232,34 @@ def _sub_bodies(st):
     if isinstance(st, ast.With):
         return [st.body]
     return []
+
+
+def _has_sym(v):
+    if isinstance(v, Sym):
+        return True
+    if isinstance(v, dict):
+        return _has_sym(list(v.keys())) or _has_sym(list(v.values()))
+    if isinstance(v, (list, tuple, set, frozenset)):
+        return any(_has_sym(x) for x in v)
+    return False
+
+
+def _bind_target(t, item, env):
+    """Bind a comprehension target (name or nested tuple of names) to a folded item."""
+    if isinstance(t, ast.Name):
+        env[t.id] = item
+        return
+    if isinstance(t, (ast.Tuple, ast.List)) and not any(isinstance(e, ast.Starred) for e in t.elts):
+        try:
+            items = list(item)
+        except Exception:
+            raise Unfoldable('cannot unpack %r' % (item,))
+        if isinstance(item, (set, frozenset, Sym)) or len(items) != len(t.elts):
+            raise Unfoldable('cannot unpack %r' % (item,))
+        for e, x in zip(t.elts, items):
+            _bind_target(e, x, env)
+        return
+    raise Unfoldable('comprehension target')
 
 
 def _target_names(t):
@@ -420,11 +478,13 @@ class Repo(object):
         return out
 
     # -- constant folding ----------------------------------------------------
-    def fold(self, expr, mod, env=None, depth=0):
-        """Fold an expression made of literals and module-level constants.  Raises Unfoldable."""
+    def fold(self, expr, mod, env=None, depth=0, sym=False):
+        """Fold an expression made of literals and module-level constants.  Raises Unfoldable.
+        sym=True: a name without a foldable value (builtin, function, class, import) folds to ``Sym(name)``
+        instead of raising, so that tables such as ``[('int', int, _INT_PATTERN), ...]`` fold structurally."""
         if depth > 25:
             raise Unfoldable('depth')
-        f = lambda e: self.fold(e, mod, env, depth + 1)
+        f = lambda e: self.fold(e, mod, env, depth + 1, sym)
         if isinstance(expr, ast.Constant):
             return expr.value
         if isinstance(expr, ast.Tuple):
@@ -434,26 +494,45 @@ class Repo(object):
         if isinstance(expr, ast.Set):
             return set(f(e) for e in expr.elts)
         if isinstance(expr, ast.Dict):
-            if any(k is None for k in expr.keys):
-                raise Unfoldable('dict unpack')
-            return dict((f(k), f(v)) for k, v in zip(expr.keys, expr.values))
+            out = {}
+            for k, v in zip(expr.keys, expr.values):
+                if k is None:           # {**other, ...}
+                    sub = f(v)
+                    if not isinstance(sub, dict):
+                        raise Unfoldable('dict unpack of a non-dict')
+                    out.update(sub)
+                else:
+                    try:
+                        out[f(k)] = f(v)
+                    except TypeError as e:
+                        raise Unfoldable(str(e))
+            return out
         if isinstance(expr, ast.Name):
             if env and expr.id in env:
                 return env[expr.id]
-            kind, m, obj = self.resolve(mod, expr.id)
-            if kind == 'value':
-                vals = obj
-                # tolerate the py2/py3 shim: "try: unicode = unicode / except NameError: unicode = str"
-                vals = [v for v in vals if not (isinstance(v, ast.Name) and v.id == expr.id)]
-                if len(vals) == 1 and vals[0] is not None and not isinstance(vals[0], (ast.FunctionDef, ast.ClassDef)):
-                    return self.fold(vals[0], m, None, depth + 1)
-                if len(vals) > 1 and all(v is not None and not isinstance(v, (ast.FunctionDef, ast.ClassDef)) for v in vals):
-                    # sequential module-level re-binding:  X = '...';  X = X.replace(...)
-                    cur = self.fold(vals[0], m, None, depth + 1)
-                    for v in vals[1:]:
-                        cur = self.fold(v, m, {expr.id: cur}, depth + 1)
-                    return cur
-            raise Unfoldable('name %s' % expr.id)
+            try:
+                return self._fold_name(expr, mod, depth, sym)
+            except Unfoldable:
+                if sym:
+                    return Sym(expr.id)
+                raise
+        if isinstance(expr, (ast.ListComp, ast.SetComp, ast.GeneratorExp, ast.DictComp)):
+            # comprehension over foldable iterables (a generator expression folds to the list of its items:
+            # it is only ever consumed by the enclosing call)
+            out = []
+            for e2 in self._comp_envs(expr.generators, mod, env, depth, sym):
+                if isinstance(expr, ast.DictComp):
+                    out.append((self.fold(expr.key, mod, e2, depth + 1, sym), self.fold(expr.value, mod, e2, depth + 1, sym)))
+                else:
+                    out.append(self.fold(expr.elt, mod, e2, depth + 1, sym))
+            try:
+                if isinstance(expr, ast.DictComp):
+                    return dict(out)
+                if isinstance(expr, ast.SetComp):
+                    return set(out)
+            except Exception as e:
+                raise Unfoldable(str(e))
+            return out
         if isinstance(expr, ast.BinOp):
             l, r = f(expr.left), f(expr.right)
             try:
@@ -474,13 +553,63 @@ class Repo(object):
             except Exception as e:
                 raise Unfoldable(str(e))
             raise Unfoldable('binop')
+        if isinstance(expr, ast.BoolOp):
+            v = None
+            for e in expr.values:
+                v = f(e)
+                if isinstance(v, Sym):
+                    raise Unfoldable('truth of %r' % v)
+                if bool(v) is isinstance(expr.op, ast.Or):
+                    return v
+            return v
+        if isinstance(expr, ast.IfExp):
+            t = f(expr.test)
+            if isinstance(t, Sym):
+                raise Unfoldable('truth of %r' % t)
+            return f(expr.body) if t else f(expr.orelse)
+        if isinstance(expr, ast.Compare):
+            left = f(expr.left)
+            for op, c in zip(expr.ops, expr.comparators):
+                right = f(c)
+                if isinstance(left, Sym) or isinstance(right, Sym):
+                    raise Unfoldable('comparison with %r' % (left if isinstance(left, Sym) else right))
+                try:
+                    if isinstance(op, ast.Eq):
+                        r = left == right
+                    elif isinstance(op, ast.NotEq):
+                        r = left != right
+                    elif isinstance(op, ast.In):
+                        r = left in right
+                    elif isinstance(op, ast.NotIn):
+                        r = left not in right
+                    elif isinstance(op, ast.Lt):
+                        r = left < right
+                    elif isinstance(op, ast.LtE):
+                        r = left <= right
+                    elif isinstance(op, ast.Gt):
+                        r = left > right
+                    elif isinstance(op, ast.GtE):
+                        r = left >= right
+                    else:
+                        raise Unfoldable('compare op')
+                except Unfoldable:
+                    raise
+                except Exception as e:
+                    raise Unfoldable(str(e))
+                if not r:
+                    return False
+                left = right
+            return True
         if isinstance(expr, ast.JoinedStr):
             parts = []
             for v in expr.values:
                 if isinstance(v, ast.Constant):
                     parts.append(str(v.value))
                 elif isinstance(v, ast.FormattedValue) and v.format_spec is None and v.conversion == -1:
-                    parts.append(str(f(v.value)))
+                    x = f(v.value)
+                    if isinstance(x, Sym):
+                        raise Unfoldable('fstring of %r' % x)
+                    parts.append(str(x))
                 else:
                     raise Unfoldable('fstring')
             return ''.join(parts)
@@ -489,9 +618,36 @@ class Repo(object):
             if isinstance(fn, ast.Name) and fn.id in ('set', 'frozenset', 'tuple', 'list', 'dict', 'sorted', 'len', 'str') \
                     and not expr.keywords:
                 args = [f(a) for a in expr.args]
+                if fn.id == 'str' and any(isinstance(a, Sym) for a in args):
+                    raise Unfoldable('str of a symbol')
                 try:
                     return {'set': set, 'frozenset': frozenset, 'tuple': tuple, 'list': list, 'dict': dict,
                             'sorted': sorted, 'len': len, 'str': str}[fn.id](*args)
+                except Exception as e:
+                    raise Unfoldable(str(e))
+            if isinstance(fn, ast.Name) and fn.id == 'dict' and len(expr.args) <= 1 and expr.keywords:
+                # dict(a=1), dict(base, a=1), dict(base, **more)
+                try:
+                    out = dict(f(expr.args[0])) if expr.args else {}
+                except Unfoldable:
+                    raise
+                except Exception as e:
+                    raise Unfoldable(str(e))
+                for k in expr.keywords:
+                    if k.arg is None:
+                        sub = f(k.value)
+                        if not isinstance(sub, dict):
+                            raise Unfoldable('dict unpack of a non-dict')
+                        out.update(sub)
+                    else:
+                        out[k.arg] = f(k.value)
+                return out
+            if isinstance(fn, ast.Name) and fn.id == 'zip' and not expr.keywords:
+                args = [f(a) for a in expr.args]
+                if any(isinstance(a, (set, frozenset, Sym)) for a in args):
+                    raise Unfoldable('zip of unordered / symbolic operands')
+                try:
+                    return list(zip(*args))
                 except Exception as e:
                     raise Unfoldable(str(e))
             if isinstance(fn, ast.Attribute) and fn.attr in ('format', 'join', 'replace', 'rstrip', 'lstrip', 'strip',
@@ -499,6 +655,8 @@ class Repo(object):
                 recv = f(fn.value)
                 args = [f(a) for a in expr.args]
                 kw = dict((k.arg, f(k.value)) for k in expr.keywords if k.arg)
+                if isinstance(recv, Sym) or (fn.attr in ('format', 'join') and _has_sym(args + list(kw.values()))):
+                    raise Unfoldable('string operation on a symbol')
                 try:
                     r = getattr(recv, fn.attr)(*args, **kw)
                 except Exception as e:
@@ -513,6 +671,8 @@ class Repo(object):
                 if isinstance(expr.slice, ast.Slice):
                     lo = f(expr.slice.lower) if expr.slice.lower else None
                     hi = f(expr.slice.upper) if expr.slice.upper else None
+                    if expr.slice.step is not None:
+                        return v[lo:hi:f(expr.slice.step)]
                     return v[lo:hi]
                 return v[f(expr.slice)]
             except Unfoldable:
@@ -521,15 +681,79 @@ class Repo(object):
                 raise Unfoldable(str(e))
         if isinstance(expr, ast.UnaryOp) and isinstance(expr.op, (ast.USub, ast.Not)):
             v = f(expr.operand)
-            return -v if isinstance(expr.op, ast.USub) else (not v)
+            if isinstance(v, Sym):
+                raise Unfoldable('operation on %r' % v)
+            try:
+                return -v if isinstance(expr.op, ast.USub) else (not v)
+            except Exception as e:
+                raise Unfoldable(str(e))
         if isinstance(expr, ast.Attribute):
             # module.CONST
             if isinstance(expr.value, ast.Name):
                 kind, m, obj = self.resolve(mod, expr.value.id)
                 if kind == 'module' and m is not None:
-                    return self.fold(ast.Name(id=expr.attr, ctx=ast.Load()), m, None, depth + 1)
+                    return self.fold(ast.Name(id=expr.attr, ctx=ast.Load()), m, None, depth + 1, sym)
             raise Unfoldable('attr')
         raise Unfoldable(type(expr).__name__)
+
+    def _fold_name(self, expr, mod, depth, sym):
+        kind, m, obj = self.resolve(mod, expr.id)
+        if kind == 'value':
+            aug = getattr(m, 'augassigns', {}).get(expr.id, {}) if m is not None else {}
+            vals = []
+            for i, v in enumerate(obj):
+                if v is None and i in aug:
+                    vals.append(aug[i])          # module-level "X += ..." / "X |= ..." (straight-line code only)
+                elif isinstance(v, ast.Name) and v.id == expr.id:
+                    # tolerate the py2/py3 shim: "try: unicode = unicode / except NameError: unicode = str"
+                    continue
+                else:
+                    vals.append(v)
+            plain = lambda v: v is not None and not isinstance(v, (ast.FunctionDef, ast.ClassDef, ast.AugAssign))
+            if len(vals) == 1 and plain(vals[0]):
+                return self.fold(vals[0], m, None, depth + 1, sym)
+            if len(vals) > 1 and plain(vals[0]) and all(plain(v) or isinstance(v, ast.AugAssign) for v in vals[1:]):
+                # sequential module-level re-binding:  X = '...';  X = X.replace(...);  X += [...]
+                cur = self.fold(vals[0], m, None, depth + 1, sym)
+                for v in vals[1:]:
+                    if isinstance(v, ast.AugAssign):
+                        v = ast.BinOp(left=ast.Name(id=expr.id, ctx=ast.Load()), op=v.op, right=v.value)
+                    cur = self.fold(v, m, {expr.id: cur}, depth + 1, sym)
+                return cur
+        raise Unfoldable('name %s' % expr.id)
+
+    def _comp_envs(self, gens, mod, env, depth, sym, budget=None):
+        """Environments (one per iteration that passes the filters) of a comprehension's ``for`` clauses."""
+        if budget is None:
+            budget = [20000]
+        if not gens:
+            yield dict(env or {})
+            return
+        g = gens[0]
+        if g.is_async:
+            raise Unfoldable('async comprehension')
+        it = self.fold(g.iter, mod, env, depth + 1, sym)
+        if isinstance(it, (set, frozenset)):
+            raise Unfoldable('iteration order of a set')
+        if not isinstance(it, (list, tuple, dict, str)):
+            raise Unfoldable('iteration over %s' % type(it).__name__)
+        for item in list(it):
+            budget[0] -= 1
+            if budget[0] < 0:
+                raise Unfoldable('comprehension too large')
+            e2 = dict(env or {})
+            _bind_target(g.target, item, e2)
+            keep = True
+            for c in g.ifs:
+                t = self.fold(c, mod, e2, depth + 1, sym)
+                if isinstance(t, Sym):
+                    raise Unfoldable('truth of %r' % t)
+                if not t:
+                    keep = False
+                    break
+            if keep:
+                for e3 in self._comp_envs(gens[1:], mod, e2, depth, sym, budget):
+                    yield e3
 
     def try_fold(self, expr, mod, default=None):
         try:
